@@ -1,12 +1,16 @@
 #!/bin/sh
 # Build the Lean library (shared infrastructure + every claimed property's model and theorems), offline.
-cd "$(dirname "$0")/lean" || exit 2
+# The tables under lean/LokiModel/Generated are first regenerated from /repo's current working tree, so the build never depends on
+# what happened to be committed there.  Findings modules (witness theorems about open defects) are built but do not gate anything.
+cd "$(dirname "$0")" || exit 2
+./check tables || exit 1
+cd lean || exit 2
 lake build || exit 1
 for id in $(cat ../tools/claimed.txt); do
   mods="LokiModel.Props.$id"
   [ -f "LokiModel/$id/Codec.lean" ] && mods="$mods LokiModel.$id.Codec"
   [ -f "LokiModel/$id/Model.lean" ] && mods="$mods LokiModel.$id.Model"
-  [ -f "LokiModel/Findings/$id.lean" ] && mods="$mods LokiModel.Findings.$id"
   lake build $mods || exit 1
+  [ -f "LokiModel/Findings/$id.lean" ] && { lake build "LokiModel.Findings.$id" >/dev/null 2>&1 || echo "note: LokiModel.Findings.$id does not build (non-gating)"; }
 done
 exit 0
